@@ -43,6 +43,7 @@ class Ctx:
         self.point_hooks: Dict[str, List[Callable[..., None]]] = {}
         self.kill_tag = threading.local()
         self.current_root: Optional[str] = None     # scratch location of the scenario that is running now
+        self.slow_stagein: Dict[str, float] = {}    # component reference -> virtual seconds its stage-in takes
 
     def jitter(self, point: str, comp: Optional[str] = None):
         if not self.active:
@@ -178,6 +179,11 @@ def install_hooks():
             return o_stagein(self, *a, **kw)
         ref = _ref_of(self)
         REC.record("cs.stageIn", ref)
+        slow = CTX.slow_stagein.get(ref)
+        if slow and CTX.active:
+            # delay injected at an existing suspension point: staging data in can take long (copies, an unstable
+            # file system); the controller calls it between deciding that a component is ready and running it
+            dilate.vsleep(slow)
         return o_stagein(self, *a, **kw)
     CS.stageIn = cs_stagein
 
@@ -422,7 +428,8 @@ def run_scenario(flowir: str, script: Dict[str, Any], location: str, perturb_see
                  watchdog_s: float = 90.0, continue_on_error: bool = False,
                  extra_files: Optional[Dict[str, str]] = None, point_hooks=None,
                  on_controller: Optional[Callable[[Any], None]] = None,
-                 max_launches: Optional[int] = None, linger_v: float = 0.0) -> Dict[str, Any]:
+                 max_launches: Optional[int] = None, linger_v: float = 0.0,
+                 slow_stagein: Optional[Dict[str, float]] = None) -> Dict[str, Any]:
     """Runs all stages like scripts/elaunch.py:Run and returns the observed outcome + events.
     linger_v: virtual seconds the harness keeps observing after the stage loop has returned (checks that are still
     in flight on controller threads, e.g. a 25 s post-mortem analysis, complete inside this window)."""
@@ -471,6 +478,7 @@ def run_scenario(flowir: str, script: Dict[str, Any], location: str, perturb_see
     CTX.jitter_p = jitter_p
     CTX.jitter_max = jitter_max
     CTX.point_hooks = dict(point_hooks or {})
+    CTX.slow_stagein = dict(slow_stagein or {})
     CTX.active = True
     if on_controller:
         on_controller(ctrl)
@@ -678,6 +686,7 @@ CONTROLLER_TARGETS = (
     ("control", "Controller.kill_all_components", ()),
     ("control", "Controller._fake_finish_with_state", ()),
     ("control", "Controller.finalize_submit_components", ("safe_observe", "check_for_push_notification")),
+    ("control", "Controller._schedule", ()),
     ("control", "Controller.observe_engine_change", ()),
     ("control", "Controller._handle_condition_component_finished", ()),
     ("control", "TransitionComponentToFinalState", ()),
@@ -799,7 +808,8 @@ def install_targeted_yield(p: float = 0.3, max_sleep: float = 0.004, seed: int =
         for c in codes:
             mon.set_local_events(tool, c, mon.events.LINE)
             counter["code_objects"] += 1
-            if c.co_name in ("drain", "UpdateStateBasedOnEngine"):
+            if c.co_name in ("drain", "UpdateStateBasedOnEngine", "finish", "stop_engine"):
+                # finish(): a thread that loses the CPU between asking its engine to stop and the next statement
                 long_pause.add(c)
     _targeted_installed = True
     return counter
